@@ -184,17 +184,19 @@ func (b *Batch) Delete(key []byte) error {
 }
 
 func (b *Batch) Commit() error {
-	// 提交后允许操作 DB 实例
-	defer b.db.mu.Unlock()
-
 	b.mu.Lock()
 	defer b.mu.Unlock()
 
-	if len(b.staged) == 0 {
-		return nil
-	}
 	if b.committed {
 		return ErrBatchCommitted
+	}
+	// 无论提交结果如何, 批处理均已结束, DB 锁仅释放一次
+	b.committed = true
+	// 提交后允许操作 DB 实例
+	defer b.db.mu.Unlock()
+
+	if len(b.staged) == 0 {
+		return nil
 	}
 
 	err := b.flushStaged()
